@@ -56,3 +56,22 @@ def check_c05(tier, seed):
         return nscheck.finish(run, "C05", classify=lambda target, tr, reasons: bool(reasons))
     finally:
         run.close()
+
+
+def check_c02(tier, seed):
+    run = nscheck.NsRun("C02", tier, seed)
+    try:
+        run.build()
+        L = 3 if tier == "quick" else 4
+        edges = run.generate("handles", L, "handles%d" % L)
+        sample_edges(run, edges)
+        for t in ("osfs", "memfs", "orefafs"):
+            run.replay(edges, t)
+        for k, (n, ln) in enumerate([(16, 120)] if tier == "quick" else [(150, 200), (150, 200)]):
+            run.random(n, ln, sym=False, own=False, handles=True, names="a,b", depth=2, seed=seed * 11 + k)
+        run.cov["universe"] = "one file with up to two names (/w/a, /w/b) and the directory /w; up to 2 open handles; all 36 flag " \
+                              "combinations; lengths {0,1,3}, offsets {-1,0,size-1,size,size+2}; path-level truncate/rename/link/remove interleaved"
+        run.cov["exhaustive"] = True
+        return nscheck.finish(run, "C02")
+    finally:
+        run.close()
